@@ -117,7 +117,8 @@ def main(run):
     rng = random.Random(run.seed)
     lat = [p for p in lattice.prec_lattice(tier) if p["family"] in ("F-prec", "F-choice", "F-nest", "F-edge")]
     if tier == "quick":
-        items = lat[::16] + ktree.generate(run.seed + 3100, 12)
+        # one program per kind of dependency edge (all of them, with every pair of requests), a stride of the rest
+        items = [p for p in lat if p["family"] == "F-edge"] + [p for p in lat if p["family"] != "F-edge"][::16] + ktree.generate(run.seed + 3100, 12)
         per_prog, maxlen = 60, 3
     else:
         items = lat[::2] + ktree.generate(run.seed + 3100, 300)
@@ -136,6 +137,10 @@ def main(run):
                 all_seq += [[prng.choice(alpha) for _ in range(3)] for _ in range(per_prog)]
             prng.shuffle(all_seq)
             share = per_prog if ver == 3 else per_prog // 4
+            if it.get("family") == "F-edge" and ver == 3:
+                pairs = [q for q in all_seq if len(q) <= 2]
+                all_seq = pairs + [q for q in all_seq if len(q) > 2]
+                share = max(share, len(pairs))
             seqs += [(ver, s) for s in all_seq[:share]]
         plans.append(seqs)
         ktree.strings_of(it["prog"], strings)
